@@ -482,3 +482,19 @@ func (g *Grammar) Size() int {
 	}
 	return n
 }
+
+// NamesElided reports whether the grammar refers to an elided token type explicitly.
+func (g *Grammar) NamesElided() bool {
+	found := false
+	for _, p := range g.Prods {
+		p.Expr.Walk(func(e *Expr) {
+			if (e.Kind == KRef || e.Kind == KLit) && e.T != "" && g.IsElided(e.T) {
+				found = true
+			}
+			if e.Kind == KLit && e.T == "" && g.IsElided(typeOfText(e.S)) {
+				found = true
+			}
+		})
+	}
+	return found
+}
